@@ -1009,7 +1009,12 @@ impl Reader {
             let mut missing_frags = this.missing_frags_for(writer_guid, sn);
             let first_missing = missing_frags.next();
             if let Some(first) = first_missing {
-              let missing_frags_set = iter::once(first).chain(missing_frags).collect(); // "undo" the .next() above
+              // "undo" the .next() above, and take only what fits into one FragmentNumberSet.
+              // The number of fragments is whatever the DATAFRAGs claimed, so it can be huge.
+              let missing_frags_set = iter::once(first)
+                .chain(missing_frags)
+                .take_while(|f| u32::from(*f) - u32::from(first) < 256)
+                .collect();
               let nf = NackFrag {
                 reader_id,
                 writer_id: writer_proxy.remote_writer_guid.entity_id,
